@@ -19,7 +19,10 @@ META = {
             "factor and uses unshifted couplings); intermediate segments that end on the wall of the next matching are flagged. "
             "(2) Operator.mu2 follows the documented table over (scheme, threshold flag) - a threshold segment of the "
             "exponentiated scheme still takes shifted couplings. (3) the identity shortcut for coinciding scales is taken in "
-            "exactly the cases in which the computed operator tends to the identity (C01 truth table, re-used).",
+            "exactly the cases in which the computed operator tends to the identity (C01 truth table, re-used). (4) the flags that "
+            "distinguish a final segment from a cliff segment with the same end points are part of the recipe's IDENTITY: "
+            "recipes are de-duplicated through a set and parts are stored under the hash of their header, so a flag left out of "
+            "equality/hash lets the segment of a target on a matching scale be answered by the cliff part another target needs.",
     "note": "Necessary conditions: the O(epsilon) bound on numbers needs execution and is not decided.",
     "technique": "exhaustive partial evaluation over orderings (finite) + truth tables",
     "engine": "sa",
@@ -67,7 +70,42 @@ def run(chk):
         chk.ok("final-segment-flags", fel.qname, f"{n_cases} (origin, target) orderings", how="exhaustive PE")
         chk.ok("intermediate-segments-are-cliffs", fel.qname, f"{n_cases} orderings", how="exhaustive PE")
     chk.floor("orderings", n_cases, 700)
+    _flag_is_identity(chk, src)
     n_tab = mu2_table(chk, src, pe, rule="segment-couplings-table")
     chk.floor("mu2 table rows", n_tab, 6)
     chk.note(cases=n_cases, files=["src/eko/runner/recipes.py", "src/eko/evolution_operator/__init__.py"])
     chk.explanation = "Flags of the final segment for targets on and off the matching scales (exhaustive), and the mu2 table."
+
+
+def _flag_is_identity(chk, src):
+    """Evolution.cliff (and every other field of the recipe headers) takes part in the generated equality and hash"""
+    import ast
+
+    ev = src.cls("eko.io.items.Evolution")
+    fields = {}
+    stack = [ev]
+    while stack:                                   # fields of the class and of its bases
+        c = stack.pop()
+        for k, v in c.fields().items():
+            fields.setdefault(k, (c, v))
+        stack.extend(src.class_bases(c))
+    chk.need("cliff" in fields, "eko.io.items.Evolution has no field `cliff` any more")
+    for c in [ev] + list(src.class_bases(ev)):
+        decs = [ast.unparse(d) for d in c.node.decorator_list]
+        own = [nm for nm in ("__eq__", "__hash__") if nm in c.methods]
+        ok = any("dataclass" in d for d in decs) and not any("eq=False" in d or "unsafe_hash" in d for d in decs) and not own
+        chk.decide(ok, "segment-flags-are-recipe-identity", c.qname, f"header class decorated {decs}, own methods {own}: equality and hash "
+                   f"must be the generated, field-wise ones", where=c.where, instance="class")
+    for name, (c, (ann, default)) in sorted(fields.items()):
+        excluded = isinstance(default, ast.Call) and any(
+            k.arg in ("compare", "hash") and isinstance(k.value, ast.Constant) and k.value.value is False for k in default.keywords)
+        chk.decide(not excluded, "segment-flags-are-recipe-identity", f"{c.qname}.{name}",
+                   f"field `{name}` is left out of equality/hash: the final segment ending exactly on a matching scale and the cliff segment "
+                   f"with the same end points become one recipe and one stored part, so the operator at the matching scale is computed "
+                   f"with the flags of whichever comes first and jumps with respect to its neighbours", where=c.where, instance=name)
+    # the two places where identity is what keeps them apart (anchors of the rule: if they vanish the rule must be re-derived)
+    fcr = src.func("eko.runner.recipes._create")
+    chk.need(any(w in ast.unparse(fcr.node) for w in ("set(", "fromkeys(", "unique(")),
+             "eko.runner.recipes._create no longer de-duplicates recipes by identity")
+    fenc = src.func("eko.io.inventory.encode")
+    chk.need("hash(header)" in ast.unparse(fenc.node), "stored parts are no longer named by hash(header)")
